@@ -2,10 +2,12 @@
 //!
 //! (a) `ops`        model-based: insert_color / insert_color_rgb / set_color / set_color_rgb / lookups on palettes of
 //!                  0..=300 colours against a `Vec<(u8,u8,u8)>` model;
+//! (a') `parser_ops` the same claims through the ANSI parser: true-colour / 256-colour SGR (and CTerm's CSI..t) add colours,
+//!                  OSC 4 redefines entries; one parser + terminal buffer + caret per case;
 //! (b) `files`      export_palette(f) -> load_palette(f) gives the same RGB sequence, f in {Hex, Pal, Gpl, Ice, Txt};
 //! (c) `sixbit_vga` all 64^3 six-bit colours through from_63 / as_vec_63 (XBin, IDF),
 //!     `sixbit_ega` all 64^3 six-bit colours through from_ega_data / to_ega_data (ADF) — exhaustive.
-use icy_engine::{from_ega_data, to_ega_data, Color, Palette, PaletteFormat};
+use icy_engine::{from_ega_data, to_ega_data, Color, Palette, PaletteFormat, TextPane};
 use icyv::proptest::prelude::*;
 use icyv::util::pick;
 use icyv::{Engine, PartCfg, Verdict};
@@ -306,6 +308,320 @@ fn diverged(pal: &Palette, model: &[Rgb], n: usize) -> Option<Verdict> {
 }
 
 // ------------------------------------------------------------------------------------------------------------
+// (a') the same claims through the ANSI parser
+// ------------------------------------------------------------------------------------------------------------
+
+/// which palette entry an OSC 4 item names
+#[derive(Clone, Debug, Hash, Serialize, Deserialize)]
+enum Target {
+    /// the index most recently handed out by a colour-adding sequence (entry 0 if none yet)
+    LastHandedOut,
+    /// entry pick(sel, len)
+    Existing(u16),
+    /// one of the sixteen text colours
+    Low(u8),
+    /// len + d: a new entry (d = 0..=3)
+    New(u8),
+    /// any entry 0..=255
+    Any(u8),
+}
+
+#[derive(Clone, Debug, Hash, Serialize, Deserialize)]
+enum POp {
+    /// CSI 38;2;r;g;b m  /  CSI 48;2;r;g;b m
+    True { bg: bool, c: Rgb },
+    /// CSI 38;2;..;48;2;.. m in one sequence
+    TruePair { fg: Rgb, bg: Rgb },
+    /// CTerm: CSI 1;r;g;b t (foreground) / CSI 0;r;g;b t (background)
+    CTerm { bg: bool, c: Rgb },
+    /// CSI 38;5;n m / CSI 48;5;n m
+    Idx256 { bg: bool, n: u8 },
+    /// CSI 30..37 / 40..47 / 90..97 / 100..107 m
+    Basic { bg: bool, bright: bool, n: u8 },
+    /// the RGB of the latest true-colour request once more
+    Again { bg: bool },
+    /// OSC 4 ; k ; rgb:rr/gg/bb [; k ; rgb:rr/gg/bb ...] ST
+    Osc { entries: Vec<(Target, Rgb)> },
+    /// ESC c
+    Ris,
+    /// a letter
+    Print(u8),
+}
+
+#[derive(Clone, Debug, Hash, Serialize, Deserialize)]
+struct ParserCase {
+    ops: Vec<POp>,
+}
+
+/// few colours, so that repeats are frequent; two of them are DOS text colours, one is xterm colour 1
+const POOL: [Rgb; 8] = [(1, 2, 3), (10, 20, 30), (200, 100, 50), (0x5f, 0x87, 0xaf), (0x80, 0, 0), (0xAA, 0, 0), (0xFF, 0xFF, 0xFF), (0, 0, 0)];
+
+fn pool_rgb() -> impl Strategy<Value = Rgb> {
+    prop_oneof![8 => prop::sample::select(POOL.to_vec()), 1 => any::<Rgb>()]
+}
+
+fn pop() -> impl Strategy<Value = POp> {
+    let target = prop_oneof![
+        4 => Just(Target::LastHandedOut),
+        2 => any::<u16>().prop_map(Target::Existing),
+        2 => (0u8..16).prop_map(Target::Low),
+        2 => (0u8..4).prop_map(Target::New),
+        1 => any::<u8>().prop_map(Target::Any),
+    ];
+    prop_oneof![
+        6 => (any::<bool>(), pool_rgb()).prop_map(|(bg, c)| POp::True { bg, c }),
+        1 => (pool_rgb(), pool_rgb()).prop_map(|(fg, bg)| POp::TruePair { fg, bg }),
+        1 => (any::<bool>(), pool_rgb()).prop_map(|(bg, c)| POp::CTerm { bg, c }),
+        2 => (any::<bool>(), prop_oneof![2 => 0u8..20, 1 => any::<u8>()]).prop_map(|(bg, n)| POp::Idx256 { bg, n }),
+        2 => (any::<bool>(), any::<bool>(), 0u8..8).prop_map(|(bg, bright, n)| POp::Basic { bg, bright, n }),
+        3 => any::<bool>().prop_map(|bg| POp::Again { bg }),
+        5 => prop::collection::vec((target, pool_rgb()), 1..=3).prop_map(|entries| POp::Osc { entries }),
+        1 => Just(POp::Ris),
+        3 => (0u8..26).prop_map(POp::Print),
+    ]
+}
+
+fn parser_case() -> impl Strategy<Value = ParserCase> {
+    prop::collection::vec(pop(), 1..=40).prop_map(|ops| ParserCase { ops })
+}
+
+/// xterm's 256-colour table, from its definition: 16 system colours, a 6x6x6 cube with levels 0,95,135,175,215,255, 24 greys 8+10k
+fn xterm256(n: u8) -> Rgb {
+    const SYS: [Rgb; 16] = [
+        (0, 0, 0),
+        (128, 0, 0),
+        (0, 128, 0),
+        (128, 128, 0),
+        (0, 0, 128),
+        (128, 0, 128),
+        (0, 128, 128),
+        (192, 192, 192),
+        (128, 128, 128),
+        (255, 0, 0),
+        (0, 255, 0),
+        (255, 255, 0),
+        (0, 0, 255),
+        (255, 0, 255),
+        (0, 255, 255),
+        (255, 255, 255),
+    ];
+    const LV: [u8; 6] = [0, 95, 135, 175, 215, 255];
+    match n {
+        0..=15 => SYS[n as usize],
+        16..=231 => {
+            let i = (n - 16) as usize;
+            (LV[i / 36], LV[(i / 6) % 6], LV[i % 6])
+        }
+        _ => {
+            let v = 8 + 10 * (n - 232);
+            (v, v, v)
+        }
+    }
+}
+
+fn check_parser(c: &ParserCase) -> Verdict {
+    let (mut buf, mut caret) = icyv::stream::make_terminal(80, 25, 0);
+    let mut parser = icyv::stream::make_parser(0);
+    // the model is the palette as last verified; the initial palette of a terminal buffer is adopted as it is
+    let mut model: Vec<Rgb> = rgbs(&buf.palette);
+    // RGB the current foreground / background index was handed out for (None: chosen by slot number, reset, or its entry redefined)
+    let mut want: [Option<Rgb>; 2] = [None, None];
+    let mut last_true: Rgb = POOL[0];
+    let mut last_handed: usize = 0;
+    // rgb -> index it was last handed out at; and the colours whose handed-out entry was redefined afterwards
+    let mut handed: Vec<(Rgb, usize)> = Vec::new();
+    let mut redefined: Vec<Rgb> = Vec::new();
+    let (mut appended, mut reused, mut oscs, mut rerequests, mut prints) = (0u32, 0u32, 0u32, 0u32, 0u32);
+
+    for (n, op) in c.ops.iter().enumerate() {
+        // ---- render
+        let mut requests: Vec<(usize, Rgb)> = Vec::new(); // (plane, rgb) in the order the sequence asks for them
+        let mut listed: Vec<usize> = Vec::new();
+        let (kind, bytes): (&str, String) = match op {
+            POp::True { bg, c } => {
+                requests.push((*bg as usize, *c));
+                last_true = *c;
+                ("sgr_truecolour", format!("\x1b[{};2;{};{};{}m", if *bg { 48 } else { 38 }, c.0, c.1, c.2))
+            }
+            POp::TruePair { fg, bg } => {
+                requests.push((0, *fg));
+                requests.push((1, *bg));
+                last_true = *bg;
+                ("sgr_truecolour", format!("\x1b[38;2;{};{};{};48;2;{};{};{}m", fg.0, fg.1, fg.2, bg.0, bg.1, bg.2))
+            }
+            POp::Again { bg } => {
+                let c = last_true;
+                requests.push((*bg as usize, c));
+                ("sgr_truecolour", format!("\x1b[{};2;{};{};{}m", if *bg { 48 } else { 38 }, c.0, c.1, c.2))
+            }
+            POp::CTerm { bg, c } => {
+                requests.push((*bg as usize, *c));
+                ("cterm_24bit", format!("\x1b[{};{};{};{}t", if *bg { 0 } else { 1 }, c.0, c.1, c.2))
+            }
+            POp::Idx256 { bg, n } => {
+                requests.push((*bg as usize, xterm256(*n)));
+                ("sgr_256", format!("\x1b[{};5;{}m", if *bg { 48 } else { 38 }, n))
+            }
+            POp::Basic { bg, bright, n } => {
+                want[*bg as usize] = None;
+                let base = match (*bg, *bright) {
+                    (false, false) => 30,
+                    (true, false) => 40,
+                    (false, true) => 90,
+                    (true, true) => 100,
+                };
+                ("sgr_basic", format!("\x1b[{}m", base + (*n as u32 & 7)))
+            }
+            POp::Osc { entries } => {
+                let mut s = String::from("\x1b]4");
+                for (t, rgb) in entries {
+                    let k = match t {
+                        Target::LastHandedOut => last_handed,
+                        Target::Existing(sel) => pick(*sel, model.len()),
+                        Target::Low(k) => *k as usize & 15,
+                        Target::New(d) => model.len() + *d as usize,
+                        Target::Any(k) => *k as usize,
+                    }
+                    .min(255);
+                    listed.push(k);
+                    s.push_str(&format!(";{k};rgb:{:02x}/{:02x}/{:02x}", rgb.0, rgb.1, rgb.2));
+                }
+                s.push_str("\x1b\\");
+                ("osc4", s)
+            }
+            POp::Ris => ("ris", "\x1bc".to_string()),
+            POp::Print(l) => ("print", ((b'a' + l % 26) as char).to_string()),
+        };
+        let pos = caret.get_position();
+        for ch in bytes.chars() {
+            if let Err(e) = parser.print_char(&mut buf, 0, &mut caret, ch) {
+                return Verdict::discard(format!("parser rejects {kind}: {e}"));
+            }
+        }
+        let now = rgbs(&buf.palette);
+        let attr = caret.get_attribute();
+        let idx = [attr.get_foreground() as usize, attr.get_background() as usize];
+
+        // ---- every index valid before the sequence still resolves to its value, unless an OSC 4 named that very index
+        if !matches!(op, POp::Ris) {
+            for (i, was) in model.iter().enumerate() {
+                if listed.contains(&i) {
+                    continue;
+                }
+                if now.get(i) != Some(was) {
+                    return Verdict::fail(
+                        format!("parser.{kind}.{}", if listed.is_empty() { "earlier_index_changed" } else { "unlisted_index_changed" }),
+                        format!("op {n} {:?} ({:?}): index {i} resolved to {was:?} before and to {:?} after", op, bytes, now.get(i)),
+                    );
+                }
+            }
+        }
+
+        match op {
+            POp::Osc { .. } => {
+                oscs += 1;
+                for p in 0..2 {
+                    if listed.contains(&idx[p]) {
+                        want[p] = None;
+                    }
+                }
+                for (rgb, k) in &handed {
+                    if listed.contains(k) && now.get(*k) != Some(rgb) && !redefined.contains(rgb) {
+                        redefined.push(*rgb);
+                    }
+                }
+            }
+            POp::Ris => {
+                // a reset may legitimately restore anything: nothing is claimed across it
+                want = [None, None];
+                handed.clear();
+                redefined.clear();
+            }
+            POp::Print(_) => {
+                prints += 1;
+                if now.len() != model.len() {
+                    return Verdict::fail("parser.print.palette_grew", format!("op {n}: printing a letter changed the palette length {} -> {}", model.len(), now.len()));
+                }
+                let cell = buf.get_char(pos).attribute;
+                let cidx = [cell.get_foreground(), cell.get_background()];
+                for p in 0..2 {
+                    if let Some(rgb) = want[p] {
+                        let got = buf.palette.get_rgb(cidx[p]);
+                        if got != rgb {
+                            return Verdict::fail(
+                                format!("parser.cell.{}_does_not_resolve", if p == 0 { "foreground" } else { "background" }),
+                                format!("op {n}: cell printed at {pos:?} stores index {} = {got:?}; the colour selected for it was {rgb:?}", cidx[p]),
+                            );
+                        }
+                    }
+                }
+            }
+            _ => {}
+        }
+
+        // ---- colour-adding sequences: the handed-out index resolves to the requested RGB; a present colour is not added again
+        if !requests.is_empty() {
+            let mut sim = model.clone();
+            let mut expect: [Option<(Rgb, usize, bool)>; 2] = [None, None];
+            for (p, rgb) in &requests {
+                if redefined.contains(rgb) {
+                    rerequests += 1;
+                    redefined.retain(|r| r != rgb);
+                }
+                let present = sim.iter().position(|m| m == rgb);
+                let at = match present {
+                    Some(i) => i,
+                    None => {
+                        sim.push(*rgb);
+                        sim.len() - 1
+                    }
+                };
+                if present.is_some() {
+                    reused += 1;
+                } else {
+                    appended += 1;
+                }
+                expect[*p] = Some((*rgb, at, present.is_some()));
+            }
+            for p in 0..2 {
+                let Some((rgb, at, was_present)) = expect[p] else { continue };
+                let plane = if p == 0 { "foreground" } else { "background" };
+                let got = buf.palette.get_rgb(idx[p] as u32);
+                if idx[p] >= now.len() || got != rgb {
+                    return Verdict::fail(
+                        format!("parser.{kind}.index_does_not_resolve"),
+                        format!("op {n} {:?}: {plane} index {} resolves to {got:?}, requested {rgb:?} (palette length {})", bytes, idx[p], now.len()),
+                    );
+                }
+                if was_present && idx[p] != at {
+                    return Verdict::fail(
+                        format!("parser.{kind}.present_colour_not_reused"),
+                        format!("op {n} {:?}: {rgb:?} was present at index {at}; the {plane} got index {} (palette length {} -> {})", bytes, idx[p], model.len(), now.len()),
+                    );
+                }
+                want[p] = Some(rgb);
+                last_handed = idx[p];
+                handed.retain(|(r, _)| *r != rgb);
+                handed.push((rgb, idx[p]));
+            }
+        }
+        model = now;
+    }
+    let _ = prints;
+    let class = if rerequests > 0 {
+        "colour_requested_again_after_its_entry_was_redefined"
+    } else {
+        match (appended > 0, reused > 0, oscs > 0) {
+            (true, true, true) => "append+reuse+osc4",
+            (true, true, false) => "append+reuse",
+            (_, _, true) => "osc4_without_both_insert_kinds",
+            _ => "few_inserts",
+        }
+    };
+    Verdict::pass(appended > 0 && reused > 0 && oscs > 0, class)
+}
+
+// ------------------------------------------------------------------------------------------------------------
 // (b) palette files
 // ------------------------------------------------------------------------------------------------------------
 
@@ -357,13 +673,97 @@ fn printable() -> impl Strategy<Value = String> {
     prop::collection::vec(ch, 1..=24).prop_map(|v| v.into_iter().collect::<String>())
 }
 
-/// single-line printable text: empty, arbitrary, or a string that looks like a line of one of the formats
+/// A line of the exported file of a small decoy palette: every keyword, marker and line shape an exporter ever writes
+/// becomes a candidate text for title / author / description / colour names without being listed by hand.
+#[derive(Clone, Debug)]
+struct Decoy {
+    fmt: Fmt,
+    /// 0..=3 colours
+    n: u8,
+    named: bool,
+    /// bit 0 title, bit 1 author, bit 2 description non-empty
+    meta: u8,
+    /// which line of the export
+    line: u16,
+    /// None: verbatim; Some(v): every run of decimal digits replaced by v
+    numbers: Option<u8>,
+    /// drop a leading '#' / ';' marker
+    strip_marker: bool,
+}
+
+fn decoy_line(d: &Decoy) -> String {
+    const COLS: [Rgb; 3] = [(1, 2, 3), (170, 187, 204), (255, 255, 255)];
+    let cols: Vec<Color> = COLS[..(d.n as usize).min(3)]
+        .iter()
+        .map(|c| {
+            let mut col = Color::new(c.0, c.1, c.2);
+            if d.named {
+                col.name = Some("n".to_string());
+            }
+            col
+        })
+        .collect();
+    let mut pal = Palette::from_slice(&cols);
+    if d.meta & 1 != 0 {
+        pal.title = "t".into();
+    }
+    if d.meta & 2 != 0 {
+        pal.author = "a".into();
+    }
+    if d.meta & 4 != 0 {
+        pal.description = "d".into();
+    }
+    let bytes = pal.export_palette(&d.fmt.engine());
+    let text = String::from_utf8_lossy(&bytes).into_owned();
+    let lines: Vec<&str> = text.lines().collect();
+    if lines.is_empty() {
+        return String::new();
+    }
+    let mut line = lines[pick(d.line, lines.len())].to_string();
+    if let Some(v) = d.numbers {
+        let mut out = String::new();
+        let mut in_run = false;
+        for ch in line.chars() {
+            if ch.is_ascii_digit() {
+                if !in_run {
+                    out.push_str(&v.to_string());
+                    in_run = true;
+                }
+            } else {
+                in_run = false;
+                out.push(ch);
+            }
+        }
+        line = out;
+    }
+    if d.strip_marker && (line.starts_with('#') || line.starts_with(';')) {
+        line.remove(0);
+    }
+    line
+}
+
+fn decoy() -> impl Strategy<Value = String> {
+    (
+        prop::sample::select(vec![Fmt::Hex, Fmt::Pal, Fmt::Gpl, Fmt::Ice, Fmt::Txt]),
+        0u8..=3,
+        any::<bool>(),
+        0u8..8,
+        any::<u16>(),
+        prop_oneof![2 => Just(None), 1 => (0u8..=12).prop_map(Some)],
+        prop_oneof![3 => Just(false), 1 => Just(true)],
+    )
+        .prop_map(|(fmt, n, named, meta, line, numbers, strip_marker)| decoy_line(&Decoy { fmt, n, named, meta, line, numbers, strip_marker }))
+}
+
+/// single-line printable text: empty, arbitrary, a hand-listed string that looks like a line of one of the formats,
+/// or a line taken from the export of a decoy palette (same or another format)
 fn text() -> impl Strategy<Value = String> {
     prop_oneof![
         3 => Just(String::new()),
         6 => printable(),
         1 => prop::sample::select(vec![" ", "1 2 3", "12 34 56 x", "aabbcc", "FFAABBCC", "#Name: x", "#Description: y", ";Palette Name: z", "GIMP Palette", "JASC-PAL"])
             .prop_map(str::to_string),
+        2 => decoy(),
     ]
 }
 
@@ -529,16 +929,22 @@ fn main() {
          (insert_color with/without name, insert_color_rgb, insert of a colour picked from the current palette, set_color/set_color_rgb up to 4 past the end, \
          set to a colour already present, lookups up to 4 past the end); operations that would grow the palette beyond 300 colours are skipped. \
          Non-trivial: the sequence performed at least one insert that appended AND at least one insert that found its colour present. \
-         files: format in {Hex,Pal,Gpl,Ice,Txt}, 0..=16 or 0..=256 colours with optional names, title/author/description each empty (3/10), \
-         printable single-line text (6/10) or a string imitating a line of one of the formats (1/10). Non-trivial: at least one colour. \
+         parser_ops: one ansi::Parser + 80x25 terminal buffer + caret, 1..=40 sequences out of {SGR 38/48;2;r;g;b (single, fg+bg pair, 'the same RGB again'), \
+         CTerm CSI 0/1;r;g;b t, SGR 38/48;5;n, SGR 30-37/40-47/90-97/100-107, OSC 4;k;rgb:rr/gg/bb[;k;rgb:..] ST with k = the index just handed out | an existing index | 0..15 | \
+         a new index | any 0..=255, RIS, a letter}; RGB from a pool of 8 (8/9) or arbitrary. Non-trivial: at least one request that appended, one that found its colour present and one OSC 4. \
+         files: format in {Hex,Pal,Gpl,Ice,Txt}, 0..=16 or 0..=256 colours with optional names, title/author/description/name texts each empty (3/12), \
+         printable single-line text (6/12), a hand-listed string imitating a line of one of the formats (1/12) or a line of the exported file of a decoy palette \
+         (0..=3 colours, any of the five formats, verbatim or with every number replaced, with or without its leading #/; marker) (2/12). Non-trivial: at least one colour. \
          sixbit_vga / sixbit_ega: every (r,g,b) in 0..64^3 once; the EGA part puts the colour into text-colour slot (i ^ i>>6 ^ i>>12) & 15 of the standard \
          64-entry EGA table. Non-trivial: colour other than (0,0,0). Distinct by case hash.",
     );
     eng.assume("the model is a Vec<(u8,u8,u8)>: insert = first position of an equal RGB triple (names ignored) or push; set = overwrite, extending the vector; entries created by set_color in the gap between the old end and the index are adopted from the engine, not asserted");
+    eng.assume("parser_ops: OSC 4 grammar as read from parsers/ansi/osc.rs (ESC ] 4 {;k;rgb:hh/hh/hh} ESC \\, k <= 255); entries an OSC 4 names are adopted from the engine, all others must keep their value; nothing is claimed across RIS; SGR 38/48;5;n requests xterm colour n (16 system colours, 6x6x6 cube 0/95/135/175/215/255, greys 8+10k)");
     eng.assume("only the RGB sequence of an imported file is compared (the statement does not claim title/author/description/colour names survive)");
     eng.assume("EGA slot positions 0,1,2,3,4,5,20,7,56..63 (VGA attribute-controller defaults) are where an ADF file keeps its 16 text colours");
 
     eng.generated(PartCfg::new("ops", 300_000, 3_000_000), || ops_case().boxed(), check_ops);
+    eng.generated(PartCfg::new("parser_ops", 60_000, 600_000), || parser_case().boxed(), check_parser);
     eng.generated(PartCfg::new("files", 100_000, 1_000_000), || file_case().boxed(), check_file);
     eng.enumerated(PartCfg::new("sixbit_vga", 0, 0).exhaustive(true), 64 * 64 * 64, six, check_vga);
     eng.enumerated(
